@@ -147,6 +147,72 @@ class Env:
 
 
 # ---------------------------------------------------------------------------------------------------------
+# real tree nodes (worker side): `from` / `to` bound as graphtage.constraints does for --match-if / --match-unless
+
+def _node_getattribute(self, name):
+    rec = _REC
+    if rec is not None and name.startswith("_"):
+        rec.on_read(self, name, sys._getframe(1))
+    return object.__getattribute__(self, name)
+
+
+class NodeEnv:
+    """`from` / `to` are nodes of trees built by graphtage.json.build_tree (bind = "nodes", what MatchIf passes) or
+    their to_obj() values (bind = "objs", what MatchUnless passes).  While the environment is open, every
+    underscore attribute read on ANY TreeNode goes through the recorder."""
+
+    def __init__(self, case):
+        from graphtage import json as gjson
+        from graphtage.tree import TreeNode
+        self.TreeNode = TreeNode
+        ft = gjson.build_tree(case["docs"][0])
+        tt = gjson.build_tree(case["docs"][1])
+        fn = list(ft.dfs())
+        tn = list(tt.dfs())
+        sel = case.get("sel", [0, 0])
+        f, t = fn[sel[0] % len(fn)], tn[sel[1] % len(tn)]
+        self.nodes = fn + tn
+        if case.get("bind") == "objs":
+            self.locals = {"from": f.to_obj(), "to": t.to_obj()}
+        else:
+            self.locals = {"from": f, "to": t}
+        self.desc = {"vars": [], "sentinels": []}
+        self.hooked = "__getattribute__" not in TreeNode.__dict__
+        if self.hooked:
+            TreeNode.__getattribute__ = _node_getattribute
+
+    def close(self):
+        if self.hooked and self.TreeNode.__dict__.get("__getattribute__") is _node_getattribute:
+            del self.TreeNode.__getattribute__
+
+
+def make_env(case):
+    return NodeEnv(case) if case.get("kind") == "node" else Env(case["env"])
+
+
+def exposes_private(value, candidates):
+    """Name of nothing / the underscore keys: is `value` a mapping whose underscore-named keys are instance
+    attributes of one of the candidate tree nodes (i.e. a node's __dict__ handed out wholesale)?"""
+    import collections.abc
+    if not isinstance(value, collections.abc.Mapping):
+        return None
+    try:
+        uk = sorted(k for k in value.keys() if isinstance(k, str) and k.startswith("_"))
+    except Exception:
+        return None
+    if not uk:
+        return None
+    for n in candidates:
+        try:
+            d = object.__getattribute__(n, "__dict__")
+        except Exception:
+            continue
+        if all(k in d for k in uk):
+            return uk
+    return None
+
+
+# ---------------------------------------------------------------------------------------------------------
 # canonical description of Python values (worker side)
 
 def _safe_fns():
@@ -336,6 +402,10 @@ class Recorder:
         self.all_reads = []     # (canon(obj), name, frame function) for every hooked read
         self.busy = False
         self.last_callee = None
+        self.internal = 0       # underscore reads made by graphtage's own code (methods of the objects themselves)
+        self.dict_reads = []    # names of graphtage functions that read a node's __dict__ during the evaluation
+        import os
+        self.pkg = os.path.dirname(E.__file__) + os.sep
 
     def on_read(self, obj, name, frame):
         if self.busy:
@@ -349,8 +419,20 @@ class Recorder:
     def _on_read(self, obj, name, frame):
         fn = frame.f_code.co_name
         infile = frame.f_code.co_filename == self.file
+        if name.startswith("_") and not infile:
+            # a read made (directly or through library code) by a function of the graphtage package other than the
+            # expression evaluator: the object's own implementation using its own private state
+            g = frame
+            while g is not None and g.f_code.co_filename != self.file:
+                if g.f_code.co_filename.startswith(self.pkg):
+                    self.internal += 1
+                    if name == "__dict__" and len(self.dict_reads) < 20:
+                        self.dict_reads.append(g.f_code.co_name)
+                    return
+                g = g.f_back
         ref = canon(obj)
-        self.all_reads.append([ref, name, fn if infile else "<outside>"])
+        if len(self.all_reads) < 2000:
+            self.all_reads.append([ref, name, fn if infile else "<outside>"])
         if not name.startswith("_"):
             return
         self.last_callee = None
@@ -726,7 +808,7 @@ def _exc_class(e):
 
 def _run_pristine(case):
     global _REC
-    env = Env(case["env"])
+    env = make_env(case)
     rec = Recorder()
     out = {}
     try:
@@ -753,9 +835,30 @@ def _run_pristine(case):
 def _run_instrumented(case):
     global _REC
     import graphtage.expressions as E
-    env = Env(case["env"])
+    env = make_env(case)
     rec = Recorder()
-    log = {"reads": [], "names": [], "bad_names": [], "steps": [], "why": None}
+    log = {"reads": [], "names": [], "bad_names": [], "steps": [], "why": None, "exposed": []}
+    nodes = getattr(env, "nodes", None)
+
+    def check_exposure(opname, args, r):
+        if nodes is None:
+            return
+        cands = list(nodes)
+        callee = args[0] if args else None
+        owner = getattr(callee, "__self__", None) if opname == "FUNCTION_CALL" else None
+        if owner is not None and isinstance(owner, env.TreeNode):
+            cands.insert(0, owner)
+        uk = exposes_private(r, cands)
+        if uk and any(set(uk) <= set(e["all"]) for e in log["exposed"]):
+            return      # a copy / view of a mapping that was already reported at its origin (dict(z), z.copy(), …)
+        if uk:
+            how = opname
+            if opname == "FUNCTION_CALL":
+                how = "method:" + str(getattr(callee, "__name__", type(callee).__name__))
+            elif opname == "MEMBER_ACCESS" and len(args) == 2 and hasattr(args[1], "name"):
+                how = "attribute:" + str(args[1].name)
+            log["exposed"].append({"how": how, "keys": uk[:6], "all": uk})
+
     saved = {"get_member": E.get_member, "get_value": E.Expression.__dict__["get_value"],
              "exec": {op: op.execute for op in E.Operator}}
     had_getattr = "getattr" in E.__dict__
@@ -794,6 +897,7 @@ def _run_instrumented(case):
                 if why and not log["why"]:
                     log["why"] = why
                 raise
+            check_exposure(op.name, args, r)
             why = step_modelled(op.name, args, cargs, ["ok", canon(r)], env)
             log["steps"].append(op.name)
             if why and not log["why"]:
@@ -1005,6 +1109,8 @@ def impl(case):
     state += _state_probe("after the instrumented evaluation")
     # the same expression once more, AFTER the other run: cross-evaluation state would change the answer
     again = _eval_plain(case["expr"], case["env"]) if case.get("kind", "str") == "str" else None
+    if case.get("kind") == "node" and not log["why"]:
+        log["why"] = "real-tree-nodes"
     if again is not None and _noaddr(again) != _noaddr(p["res"]):
         obs["order_diff"] = [[case["expr"], p["res"], again]]
     state += _state_probe("after the repeated evaluation")
@@ -1015,6 +1121,9 @@ def impl(case):
     obs["reads"] = log["reads"]
     obs["names"] = log["names"]
     obs["bad_names"] = log["bad_names"]
+    obs["exposed"] = [{"how": e["how"], "keys": e["keys"]} for e in log["exposed"][:4]]
+    obs["internal_reads"] = rec.internal
+    obs["dict_reads"] = sorted(set(rec.dict_reads))
     obs["nsteps"] = len(log["steps"])
     obs["ops"] = sorted(set(log["steps"]))
     why = log["why"]
@@ -1045,7 +1154,7 @@ def _model_value(v):
 def to_model(case, obs):
     if obs.get("parse") != "ok" or obs.get("unmodelled") or obs.get("diverged") or obs.get("error"):
         return None
-    if case.get("kind") in ("seq", "constraints"):
+    if case.get("kind") in ("seq", "constraints", "node"):
         return None
     env = case["env"]
     sents = []
@@ -1106,6 +1215,21 @@ def monitor(case, obs):
                      "what": "evaluating %r read underscore attribute %r of %s (mechanism: %s, innermost frame %s%s)" % (
                          case["expr"], t["name"], json.dumps(t["obj"]), t["key"], t.get("frame"),
                          ", callee " + t["callee"] if t.get("callee") else "")})
+    seen_e = set()
+    for ex in obs.get("exposed", []):
+        if ex["how"].startswith("method:"):
+            key = "public-method-exposes-private:" + ex["how"][7:]
+        elif ex["how"].startswith("attribute:"):
+            key = "public-attribute-exposes-private:" + ex["how"][10:]
+        else:
+            key = "private-state-exposed:" + ex["how"]
+        if key in seen_e:
+            continue
+        seen_e.add(key)
+        hits.append({"prop": "C19", "key": key,
+                     "what": "evaluating %r obtained a mapping keyed by a tree node's private attribute names %s "
+                             "(a node's __dict__ handed out by its public API, no underscore access by the evaluator)" % (
+                                 case["expr"], json.dumps(ex["keys"]))})
     for n in sorted(set(obs.get("bad_names", []))):
         hits.append({"prop": "C19", "key": "name-outside-whitelist",
                      "what": "evaluating %r resolved identifier %r which is neither a given variable nor a documented whitelisted builtin" % (case["expr"], n)})
@@ -1126,6 +1250,13 @@ def classify(case, obs):
                                                          "none" if not obs.get("raised") else "all" if obs["raised"] == ev else "some")
     if obs.get("parse") != "ok":
         return "parse:" + obs["parse"]
+    if case.get("kind") == "node":
+        r = obs["res"]
+        ir = obs.get("internal_reads", 0)
+        return "node-%s/%s/own-private-reads=%s%s%s" % (case.get("bind", "nodes"), "ok" if r[0] == "ok" else r[1],
+                                                      "0" if ir == 0 else "1-9" if ir < 10 else "10+",
+                                                      "/dict-read-by:" + "+".join(obs["dict_reads"]) if obs.get("dict_reads") else "",
+                                                      "/EXPOSED" if obs.get("exposed") else "")
     tag = "modelled" if not obs.get("unmodelled") else "monitor-only(" + obs["unmodelled"] + ")"
     r = obs["res"]
     res = "ok" if r[0] == "ok" else r[1]
@@ -1616,6 +1747,86 @@ C_RAISE = ["from.nope", "from._parent", "to._edit_modifiers", "from.(_parent)", 
            "getattr(from, '_parent')", "from.a", "to.id == 1", "from['id'] == to['id']", "x", "to(1)"]
 
 
+NODE_DOCS = [[{"a": [1, 2, 3], "b": "x"}, {"a": [1, 2, 4], "b": "y"}],
+             [[1, 2, {"k": "v"}], [1, 3, {"k": "w"}, 4]],
+             [{"a": {"id": 1, "v": [1, 2]}, "b": None}, {"a": {"id": 1, "v": [2]}, "c": True}],
+             [5, "five"], [[1.5, "s"], ["s", 2]]]
+NODE_EDGE = ["from", "to", "from == to", "from.total_size", "from.parent", "to.parent.parent", "from._parent", "from.(_parent)", "to.__dict__",
+             "(from.editable_dict('')[0])", "(from.editable_dict('')[0])['_children']", "(to.editable_dict('')[0]).keys('')[0]",
+             "list((from.editable_dict('')[0]))", "len((from.editable_dict('')[0]))", "'{0}'.format((from.editable_dict('')[0]))",
+             "((from.make_edited('')[0]).editable_dict('')[0])", "(from.to_obj('')[0])", "(from.children('')[0])", "(from.dfs('')[0])",
+             "(from.dfs('')[0]).gi_frame", "list(from.dfs('')[0])", "(list(from.dfs('')[0]))[1]", "((list(from.dfs('')[0]))[1]).parent",
+             "'{0._parent}'.format(from)", "'{0:>{1._parent}}'.format('ab', from)", "str.format('{0.parent._children}', to)",
+             "'{0.total_size}'.format(from)", "from.diff(to)", "(from.copy('')[0])", "(from.copy('')[0]) == from", "from.edits(to)",
+             "from.get_all_edits(to)", "list(from.get_all_edits(to))", "from.is_leaf", "from.edited", "from.container_type", "from.object",
+             "from.key", "from.value", "from.items", "(from.items('')[0])", "from.child_indexes", "from.auto_match_keys",
+             "from.add_edit_modifier(len)", "from.calculate_total_size('')[0]", "from.all_children_are_leaves('')[0]",
+             "from['a']", "from['a'] == to['a']", "from[0]", "len(from)", "from in to", "not from", "hash(from)", "str(from)", "sorted([from, to])",
+             "from.print(1)", "from.print_parent_context(1, 2)", "from.init_args('')[0]", "from.make_key_value_pair_node(from, to)",
+             "from.from_dict(from)", "(from.__class__)", "from.copy_from(to)", "(from.editable_dict('')[0])['_parent']"]
+
+
+def node_api_names():
+    """public attribute names of every TreeNode subclass of the tree under test (so a new public method that hands
+    out private state is explored as soon as it exists)"""
+    try:
+        import graphtage
+        from graphtage.tree import TreeNode
+        names = set()
+        todo = [TreeNode]
+        while todo:
+            c = todo.pop()
+            names.update(n for n in dir(c) if not n.startswith("_"))
+            todo.extend(c.__subclasses__())
+        return sorted(names)
+    except Exception:
+        return ["children", "dfs", "editable_dict", "parent", "to_obj", "total_size", "copy", "is_leaf"]
+
+
+def gen_nodes(rng, tier):
+    out = []
+    api = node_api_names()
+    def case(e, bind=None):
+        c = {"kind": "node", "expr": e, "docs": rng.choice(NODE_DOCS), "sel": [rng.randint(0, 9), rng.randint(0, 9)]}
+        if bind:
+            c["bind"] = bind
+        return c
+    for e in NODE_EDGE:
+        out.append({"kind": "node", "expr": e, "docs": NODE_DOCS[0], "sel": [0, 0]})
+        if rng.random() < 0.5:
+            out.append(case(e))
+        if rng.random() < 0.25:
+            out.append(case(e, "objs"))
+    # every public name: as an attribute, as a zero-argument call and as a one-argument call, and what comes back
+    reps = 1 if tier == "quick" else 6
+    for _ in range(reps):
+        for nm in api:
+            v = rng.choice(["from", "to"])
+            out.append(case("%s.%s" % (v, nm)))
+            z = "(%s.%s('')[0])" % (v, nm)
+            out.append(case(rng.choice([z, z, "list(%s)" % z, "len(%s)" % z, z + "['_children']", z + "['_parent']", z + ".keys('')[0]",
+                                        "dict(%s)" % z, "'{0}'.format(%s)" % z, z + "." + rng.choice(api), z + "[0]",
+                                        "(%s.%s('')[0])" % (z, rng.choice(api))])))
+            out.append(case("%s.%s(%s)" % (v, nm, rng.choice(["to", "from", "0", "'a'", "len", "from, to"]))))
+    n = 60 if tier == "quick" else 1500
+    for _ in range(n):
+        v = rng.choice(["from", "to", "(list(from.dfs('')[0]))[%d]" % rng.randint(0, 3)])
+        e = v
+        for _ in range(rng.randint(1, 3)):
+            r = rng.random()
+            nm = rng.choice(api + ["_parent", "_children", "__dict__", "nope"])
+            if r < 0.4:
+                e = e + "." + nm
+            elif r < 0.75:
+                e = "(" + e + "." + nm + "('')[0])"
+            elif r < 0.9:
+                e = "(" + e + "." + nm + "(" + rng.choice(["to", "0", "'a'"]) + "))"
+            else:
+                e = e + "[" + rng.choice(["0", "'a'", "'_children'", "'_parent'", "'k'"]) + "]"
+        out.append(case(e, "objs" if rng.random() < 0.15 else None))
+    return out
+
+
 def gen_stateful(rng, tier):
     out = []
     nseq = 40 if tier == "quick" else 400
@@ -1685,6 +1896,7 @@ def gen(rng, tier):
                 cases.append(_case(rng, e, env=fixed, kind="rpn", mut=[rng.choice(RPN_MUTS) for _ in range(rng.choice([1, 1, 2]))]))
     cases += gen_toks(rng, tier)
     cases += gen_stateful(rng, tier)
+    cases += gen_nodes(rng, tier)
     n += len(cases)
     while len(cases) < n:
         env, names = gen_env(rng)
@@ -1739,6 +1951,18 @@ def shrink(case):
         for dcs in DOCS[3:]:
             if case["docs"] != dcs:
                 yield dict(case, docs=dcs)
+        return
+    if case.get("kind") == "node":
+        e = case["expr"]
+        if case.get("docs") != NODE_DOCS[3]:
+            yield dict(case, docs=NODE_DOCS[3], sel=[0, 0])
+        if case.get("sel") != [0, 0]:
+            yield dict(case, sel=[0, 0])
+        n = len(e)
+        for width in (n // 2, n // 3, n // 4, 8, 4, 2, 1):
+            if width > 0:
+                for i in range(0, n - width + 1, max(1, width // 2)):
+                    yield dict(case, expr=e[:i] + e[i + width:])
         return
     if case.get("kind") == "seq":
         ex = case["exprs"]
